@@ -61,8 +61,13 @@ HeadOps == LET ks == SetToSeq(KeysIn(Top)) IN
 IncOps == LET ks == SetToSeq(KeysIn(Top)) IN
    [i \in 1..CFG.K |-> Iou(ks[i], "n", IF i = 1 THEN "D" ELSE "C", IF i = 1 \/ (i >= 2 /\ i <= CFG.maxin) THEN "I" ELSE "O")]
    \o <<Iou(ks[CFG.K + 1], "n", "C", "I"), [o |-> "uns", k |-> ks[CFG.K], st |-> "C", dr |-> "I"]>>
-Init == \E pat \in (IF PREFILL = 0 THEN {0} ELSE IF PREFILL >= 96 THEN {PREFILL} ELSE {0, 1, 3, PREFILL}) :
-          /\ script = (IF PREFILL = 0 THEN <<>> ELSE IF PREFILL = 99 THEN IpOps ELSE IF PREFILL = 98 THEN PendOps ELSE IF PREFILL = 97 THEN HeadOps ELSE IF PREFILL = 96 THEN IncOps ELSE FillOps(pat, PREFILL, "n"))
+\* scenario "pdis": full top bucket with 3 disconnected nodes in front; a connected candidate becomes pending and is then reported
+\* disconnected while it waits: when its time has come it replaces the head and joins the *end* of the disconnected group
+PdisOps == LET ks == SetToSeq(KeysIn(Top)) IN
+   [i \in 1..CFG.K |-> Iou(ks[i], "n", IF i <= 3 THEN "D" ELSE "C", "O")]
+   \o <<Iou(ks[CFG.K + 1], "n", "C", "O"), [o |-> "uns", k |-> ks[CFG.K + 1], st |-> "D", dr |-> "-"]>>
+Init == \E pat \in (IF PREFILL = 0 THEN {0} ELSE IF PREFILL >= 95 THEN {PREFILL} ELSE {0, 1, 3, PREFILL}) :
+          /\ script = (IF PREFILL = 0 THEN <<>> ELSE IF PREFILL = 99 THEN IpOps ELSE IF PREFILL = 98 THEN PendOps ELSE IF PREFILL = 97 THEN HeadOps ELSE IF PREFILL = 96 THEN IncOps ELSE IF PREFILL = 95 THEN PdisOps ELSE FillOps(pat, PREFILL, "n"))
           /\ tb = EmptyTable(CFG) /\ stamp = <<>>
           /\ lastop = Reset /\ lastret = "ok" /\ hist = <<Reset>> /\ res = [tb |-> <<>>, ret |-> "ok"]
 \* (primed variables are bound in sequence so that Step is evaluated once per successor: TLC
@@ -120,5 +125,9 @@ GoalPendingVsIncomingLimit == ~(\E b \in Buckets(CFG) : script = <<>> /\ lastop.
                            /\ Cardinality({i \in 1..Len(tb[b].nodes) : tb[b].nodes[i].st = "C" /\ tb[b].nodes[i].dr = "I"}) = CFG.maxin
                            /\ tb[b].nodes[1].st = "D" /\ hist[Len(hist) - 1].o = "tick"
                            /\ \A i \in 1..Len(tb[b].nodes) : tb[b].nodes[i].key # SetToSeq(KeysIn(Top))[CFG.K + 1])
+\* a candidate that was reported disconnected while waiting is applied: it sits behind the other disconnected nodes, not at the head
+GoalDisconnectedPendingApplied == ~(\E b \in Buckets(CFG) : script = <<>> /\ lastop.o = "iter" /\ FullB(b) /\ ~tb[b].pend.on
+                           /\ hist[Len(hist) - 1].o = "tick"
+                           /\ \E i \in 2..Len(tb[b].nodes) : tb[b].nodes[i].key = SetToSeq(KeysIn(Top))[CFG.K + 1] /\ tb[b].nodes[i].st = "D")
 GoalBucket0Closest  == ~(lastop.o = "closest" /\ lastop.t % 2 = 1 /\ Len(tb[0].nodes) = 1 /\ Len(lastret) >= 3)
 =============================================================================
